@@ -27,7 +27,8 @@ ASSUMPTIONS = ["vmon/ref/grouping.py states the documented rules"]
 MONITORS = ["group", "group_raises", "count_steps", "count_mines", "count_holds_rolls"]
 REQUIRED = ["overlapping_holds", "interrupted_head", "orphan_tail", "unclosed_head", "same_beat_mixed_types",
             "corpus_chart", "interrupted_head_while_younger_open", "type_subset", "stream_given_as_notedata",
-            "full_row_with_minimum_equal_to_columns", "consecutive_notes_less_than_a_tick_apart"]
+            "full_row_with_minimum_equal_to_columns", "consecutive_notes_less_than_a_tick_apart",
+            "some_hold_open_for_more_than_256_notes"]
 
 GRID_KINDS = "01234M"  # index 0..4 used: 0 empty, 1 tap, 2 hold head, 3 tail, 4 -> mine
 GRID_MAP = ["0", "1", "2", "3", "M"]
@@ -87,6 +88,9 @@ def cases(ctx):
     if ctx.shard == 0:
         for name, ch in c07.corpus_charts():
             yield {"kind": "corpus", "name": name}
+    for _ in range(ctx.split(12 if quick else 16 * 60)):
+        columns, notes = G.gen_chain(rng, malformed=rng.choice([0.0, 0.0, 0.0, 0.01]))
+        yield {"kind": "random", "notes": notes, "include": None, "minimum": rng.randint(1, 4), "chain": True}
     n = ctx.split(800 if quick else 16 * 30000)
     for i in range(n):
         types = rng.choice(["1234M", "1234M", "234", "1234AFKLM", "12344M3", "23"])
@@ -154,7 +158,10 @@ def check(ctx, case):
         return
     notes = case["notes"]
     heads_tails = any(n[3] in "234" for n in notes)
-    ctx.begin(case, nontrivial=heads_tails or len({(n[0], n[1]) for n in notes}) < len(notes))
+    ctx.begin(case, nontrivial=heads_tails or len({(n[0], n[1]) for n in notes}) < len(notes),
+              sample=None if not case.get("chain") else {"kind": "chain of overlapping holds", "n_notes": len(notes), "first": notes[:12]})
+    if case.get("chain"):
+        ctx.feat("some_hold_open_for_more_than_256_notes")
     run_stream(ctx, notes, case["include"], case["minimum"], case)
 
 
